@@ -209,7 +209,22 @@ def wf_rinfo(r):
 
 
 def nack_canonical(lost):
-    return all(u(16, x) for x in lost) and all(1 <= ((b - a) & 0xFFFF) <= 65520 for a, b in zip(lost, lost[1:]))
+    """Proof/RtcpP.v nack_canonical: each number lands on a higher bit of the open FCI entry or opens a
+    new one (true for numerically ascending lists and for lists advancing by 1..65520 mod 2^16)"""
+    if not all(u(16, x) for x in lost):
+        return False
+    if not lost:
+        return True
+    pid, c = lost[0], 0
+    for p in lost[1:]:
+        d = (p - pid - 1) & 0xFFFF
+        if d < 16:
+            if d < c:
+                return False
+            c = d + 1
+        else:
+            pid, c = p, 0
+    return True
 
 
 def wf_rtcp(p, exact=True):
@@ -481,6 +496,68 @@ def mutate(rng, data):
     return bytes(gbytes(rng, rng.choice([0, 1, 3, 4, 8, 11, 12, 13, 16, 28, 60])))
 
 
+def delta(rng):
+    return rng.choice([-1, 1]) * rng.randrange(1, 9)
+
+
+def mutate_rtcp_fields(rng, data):
+    """length / count / padding fields of one packet header inside a compound packet, +-1..8"""
+    data = bytearray(data)
+    offs = []
+    pos = 0
+    while pos + 4 <= len(data):
+        offs.append(pos)
+        pos += 4 + 4 * struct.unpack_from("!H", data, pos + 2)[0]
+    if not offs:
+        return bytes(data)
+    o = rng.choice(offs)
+    r = rng.random()
+    if r < 0.35:      # count / fmt bits
+        data[o] = (data[o] & 0xE0) | ((data[o] + delta(rng)) & 0x1F)
+    elif r < 0.7:     # length in words
+        w = (struct.unpack_from("!H", data, o + 2)[0] + delta(rng)) & 0xFFFF
+        struct.pack_into("!H", data, o + 2, w)
+    elif r < 0.8:     # padding bit with a plausible or implausible pad count
+        data[o] |= 0x20
+        end = min(len(data), o + 4 + 4 * struct.unpack_from("!H", data, o + 2)[0])
+        if end > o + 4:
+            data[end - 1] = rng.choice([0, 1, 2, 3, 4, 8, (end - o - 4) & 255, (end - o - 3) & 255, 255])
+    elif r < 0.9:     # version / packet type
+        if rng.random() < 0.5:
+            data[o] = (data[o] & 0x3F) | (rng.randrange(4) << 6)
+        else:
+            data[o + 1] = rng.choice([200, 201, 202, 203, 204, 205, 206, 207, 192, 199, 0])
+    else:             # inner length byte (SDES item length, REMB count ...)
+        k = min(len(data) - 1, o + rng.choice([4, 5, 8, 9, 12, 13, 16]))
+        data[k] = (data[k] + delta(rng)) & 255
+    return bytes(data)
+
+
+def mutate_rtp_fields(rng, data):
+    """CSRC count, X / P bits, extension length, element length nibble / byte, pad count: +-1..8"""
+    data = bytearray(data)
+    if len(data) < 12:
+        return bytes(data)
+    cc = data[0] & 0x0F
+    r = rng.random()
+    if r < 0.2:
+        data[0] = (data[0] & 0xF0) | ((cc + delta(rng)) & 0x0F)
+    elif r < 0.3:
+        data[0] ^= rng.choice([0x10, 0x20, 0x30, 0x40, 0x80])
+    elif r < 0.55 and len(data) >= 12 + 4 * cc + 4:
+        o = 12 + 4 * cc + 2
+        w = (struct.unpack_from("!H", data, o)[0] + delta(rng)) & 0xFFFF
+        struct.pack_into("!H", data, o, w)
+    elif r < 0.85 and len(data) > 12 + 4 * cc + 5:
+        o = 12 + 4 * cc + 4 + rng.choice([0, 0, 1, 1, 2, 3, 4, 5])
+        o = min(o, len(data) - 1)
+        data[o] = (data[o] + delta(rng)) & 255
+    else:
+        data[0] |= 0x20
+        data[-1] = (data[-1] + delta(rng)) & 255 if rng.random() < 0.5 else rng.choice([0, 1, (len(data) - 12) & 255, (len(data) - 11) & 255, 255])
+    return bytes(data)
+
+
 # ----------------------------------------------------------------------------- the check
 class C07(Check):
     prop = "C07"
@@ -533,8 +610,11 @@ class C07(Check):
             return ["Rtcp", 4, ps]
         if r < 0.52:
             data = self._valid_rtcp_bytes(rng)
-            if rng.random() < 0.8:
+            k = rng.random()
+            if k < 0.4:
                 data = mutate(rng, data)
+            elif k < 0.8:
+                data = mutate_rtcp_fields(rng, data)
             return ["Rtcp", 5, list(data)]
         ids = gids(rng, 0.3 if bad else 0.0)
         if r < 0.57:
@@ -559,8 +639,11 @@ class C07(Check):
             return ["Rtp", 4, ids, p, pad]
         if r < 0.96:
             data = self._valid_rtp_bytes(rng, ids)
-            if rng.random() < 0.8:
+            k = rng.random()
+            if k < 0.4:
                 data = mutate(rng, data)
+            elif k < 0.8:
+                data = mutate_rtp_fields(rng, data)
             return ["Rtp", 5, ids, list(data)]
         p, _ = grtp(rng, ids, bad / 4)
         if r < 0.98:
@@ -694,8 +777,8 @@ class C07(Check):
             return self._oracle_rtp(rtp, op, case, out)
         except CaseTimeout:
             raise
-        except Exception as exc:  # the property statement itself could not be evaluated -> report
-            return ("oracle-exception", f"round trip raised {exc!r} on {case}")
+        except Exception as exc:  # parsing back the library's own output raised
+            return (f"{m.lower()}-op{op}-roundtrip-raised", f"round trip raised {exc!r} on {case}")
 
     def _oracle_rtcp(self, rtp, op, case, out):
         if op in (0, 6):
@@ -717,6 +800,23 @@ class C07(Check):
                     return ("remb-bitrate", f"bitrate {b} decoded as {b2}")
                 if list(s2) != list(ssrcs):
                     return ("remb-ssrcs", f"ssrc list {ssrcs} decoded as {s2}")
+        elif op == 5 and out[0] == 0:
+            ps = out[1]
+            for p in ps:
+                if p[0] == 4 and any(not u(16, x) for x in p[4]):
+                    return ("nack-not-16-bit", f"parsed NACK list {p[4]}")
+                if p[0] in (0, 1) and any(not wf_rinfo(r) for r in p[-1]):
+                    return ("report-out-of-range", f"parsed report block out of wire range in {p}")
+            if all(wf_rtcp(p, exact=False) for p in ps) and rtcp_size_ok(ps):
+                again = [enc_rtcp(p) for p in rtp.RtcpPacket.parse(b"".join(bytes(mk_rtcp(p)) for p in ps))]
+                norm = lambda q: q[:4] + [sorted(set(q[4]))] if q[0] == 4 else q
+                if [norm(p) for p in again] != [norm(p) for p in ps]:
+                    return ("rtcp-reparse", f"parsed {ps}, re-serialised and parsed: {again}")
+        elif op == 3 and out[0] == 0:
+            d = bytes(case[2])
+            want = (((d[5] & 3) << 16) | (d[6] << 8) | d[7]) << (d[5] >> 2)
+            if out[1][0] != want or len(out[1][1]) != d[4]:
+                return ("remb-decode", f"REMB {list(d)} decoded as {out[1]}")
         elif op == 4:
             ps = case[2]
             if all(wf_rtcp(p, exact=False) for p in ps) and rtcp_size_ok(ps):
@@ -769,6 +869,14 @@ class C07(Check):
                 back = enc_rtp(rtp.RtpPacket.parse(bytes(out[1]), mk_map(ids)))
                 if back != p:
                     return ("rtp-roundtrip", f"ids={ids}: packet {p} parsed back as {back}")
+        elif op == 5 and out[0] == 0:
+            ids, p = case[2], out[1]
+            pad = [0] * max(0, p[8] - 1)
+            if wf_rtp(ids, p, pad):
+                with FakeUrandom(pad):
+                    again = enc_rtp(rtp.RtpPacket.parse(mk_rtp(p).serialize(mk_map(ids)), mk_map(ids)))
+                if again != p:
+                    return ("rtp-reparse", f"ids={ids}: parsed {p}, re-serialised and parsed: {again}")
         elif op == 6:
             p, pt, seq, ssrc = case[2], case[3], case[4], case[5]
             if u(16, p[2]):
@@ -782,6 +890,46 @@ class C07(Check):
                 if w[1] != pt or w[2] != seq or w[4] != ssrc or w[3] != p[3] or w[0] != p[0]:
                     return ("rtx-header", f"wrap_rtx header {w[:5]}")
         return None
+
+    def shrink_candidates(self, case):
+        m, op = case[0], case[1]
+        if m == "Rtcp" and op == 4:
+            ps = case[2]
+            for i in range(len(ps)):
+                if len(ps) > 1:
+                    yield [m, op, ps[:i] + ps[i + 1:]]
+            for i, p in enumerate(ps):
+                if p[0] in (0, 1) and p[-1]:          # fewer report blocks
+                    for j in range(len(p[-1])):
+                        yield [m, op, ps[:i] + [p[:-1] + [p[-1][:j] + p[-1][j + 1:]]] + ps[i + 1:]]
+                if p[0] == 4 and len(p[4]) > 1:       # shorter NACK list
+                    for j in range(len(p[4])):
+                        yield [m, op, ps[:i] + [p[:4] + [p[4][:j] + p[4][j + 1:]]] + ps[i + 1:]]
+                if p[0] == 2 and p[1]:                # fewer SDES chunks
+                    for j in range(len(p[1])):
+                        yield [m, op, ps[:i] + [[2, p[1][:j] + p[1][j + 1:]]] + ps[i + 1:]]
+        elif m == "Rtp" and op == 4:
+            ids, p, pad = case[2], case[3], case[4]
+            if p[7]:
+                yield [m, op, ids, p[:7] + [[]] + p[8:], pad]
+            if p[5]:
+                yield [m, op, ids, p[:5] + [[]] + p[6:], pad]
+            for k in range(7):
+                if p[6][k]:
+                    h = [x if j != k else [] for j, x in enumerate(p[6])]
+                    yield [m, op, ids, p[:6] + [h] + p[7:], pad]
+            if p[8]:
+                yield [m, op, ids, p[:8] + [0], []]
+        elif m == "Rtp" and op == 2:
+            ids, h = case[2], case[3]
+            for k in range(7):
+                if h[k]:
+                    yield [m, op, ids, [x if j != k else [] for j, x in enumerate(h)]]
+        elif m == "Rtp" and op == 0:
+            xs = case[2]
+            for i in range(len(xs)):
+                if len(xs) > 1:
+                    yield [m, op, xs[:i] + xs[i + 1:]]
 
     def nontrivial(self, case, out):
         if out[0] != 0:
